@@ -17,9 +17,10 @@ import symlib as L
 import vlib
 
 THEOREMS = ["C06_coherent", "C06_total", "C06_nonvacuous", "C06_nonvacuous_answers", "C06_double_visit_incoherent",
-            "C06_coherent_core_partial", "C06_core_nonvacuous", "C06_pipeline_core_partial", "C06_pipeline_nonvacuous"]
+            "C06_coherent_core_partial", "C06_core_nonvacuous", "C06_pipeline_core_partial", "C06_pipeline_nonvacuous",
+            "C06_log_fresh_core", "C06_coherent_core", "C06_pipeline_core"]
 # the pipeline statement goes through the parser / AST models regenerated from the current sources
-TRANSLATORS = ["t_tokens", "t_lextables", "t_unicode", "t_grammar", "t_grammarcert", "t_foldkinds", "t_ast"]
+TRANSLATORS = ["t_tokens", "t_lextables", "t_unicode", "t_grammar", "t_grammarcert", "t_foldkinds", "t_ast", "t_symbolmap"]
 TRUSTED = [
     "Coq 8.16.1 kernel; vm_compute only in the closed Examples (non-vacuity, D2 witness)",
     "C06_coherent is about the op-level model: what the indexer (index.rs) guarantees about its calls is the "
@@ -27,7 +28,9 @@ TRUSTED = [
     "C06_coherent_core_partial replaces ops_wf by a proof over group scope's indexer model (Indexer.v) for ALL Core workspaces (any number of "
     "files); its hypotheses are stmt_ok (identifiers of the Core AST are identifier tokens of their file carrying their text) and the decidable "
     "log_fresh (no source range visited twice), evaluated by ixbridge_run on every compared workspace; C06_pipeline_core_partial discharges "
-    "stmt_ok and toks_sorted through builder bridge's model pipeline (Pipeline.analyze), leaving only log_fresh; that Indexer.v + "
+    "stmt_ok and toks_sorted through builder bridge's model pipeline (Pipeline.analyze), leaving only log_fresh; C06_log_fresh_core PROVES "
+    "log_fresh from 'identifier ranges pairwise distinct per file' (proofs/IndexerFresh.v), which bridge proves for the pipeline "
+    "(pipeline_idents_nodup): C06_coherent_core has hypotheses on the AST only and C06_pipeline_core has NO hypothesis; that Indexer.v + "
     "IndexerOps.abs equals what index.rs does is the CHECKED state equality 'bridge_to_indexer_model'; harness coreast = AstToCore.core_of_tree "
     "and parser model = syntax crate are the checked ties of builder bridge / the parser group; translators t_tokens, t_lextables, t_unicode, "
     "t_grammar, t_grammarcert, t_ast (pipeline statement)",
@@ -78,6 +81,7 @@ def still_bad(bindir, prop_pred):
 def run(ctx):
     bindir = vlib.build_harness(True, bins=["symdump"])
     fails = vlib.proof_step(ctx, "TG.Props.C06", THEOREMS, ["props/C06.vo"], TRUSTED, translators=TRANSLATORS)
+    L.source_tie(ctx, fails)
     exe = vlib.build_model("symmap")
     wss, kinds = gen_inputs(ctx)
     res = L.evaluate(bindir, exe, wss)
